@@ -4,3 +4,6 @@ INVARIANT DegreesAndSizesUnique
 INVARIANT SizesGrowWithDegrees
 INVARIANT EntriesPositive
 INVARIANT ObligationCount
+INVARIANT SizeTableNamesTheSameCatalogue
+INVARIANT TablesSortedByDegree
+INVARIANT RouteGeneratorLaws
